@@ -17,6 +17,9 @@ func routeSetting(cfg *ChainCfg, r *ChainReq) int {
 	if r.Target == "post" && cfg.ReuseBuilder && cfg.RouteEncPost != 0 {
 		return cfg.RouteEncPost
 	}
+	if r.Target == "route" && cfg.RouteEncLate != 0 {
+		return cfg.RouteEncLate
+	}
 	return cfg.RouteEnc
 }
 
@@ -28,7 +31,7 @@ func encodingEnabledFor(cfg *ChainCfg, r *ChainReq) bool {
 		return cfg.RouteEncPost == 1
 	}
 	if r.Target == "route" || r.Target == "post" || r.Target == "route2" {
-		switch cfg.RouteEnc {
+		switch routeSetting(cfg, r) {
 		case 1:
 			return true
 		case 2:
